@@ -1,4 +1,5 @@
 import Proofs.C02Scalar
+import Proofs.C02Hist
 /-!
 # C02 — the structural steps of the nested round trip (helpers)
 
@@ -523,6 +524,9 @@ inductive FieldsRT (p : Nat) : List CqlTy → List GoTy → List GoVal → Prop
   | null {t ts gs vs} : NullOK p t → FieldsRT p ts gs vs → FieldsRT p (t :: ts) (.ptr (goTypeOf t) :: gs) (.nilptr :: vs)
   | ptr {t ts gs v vs} : RT p t (goTypeOf t) v → NonNull p t v → Small p t v →
       FieldsRT p ts gs vs → FieldsRT p (t :: ts) (.ptr (goTypeOf t) :: gs) (.ptr v :: vs)
+  /-- an interface{} field / element holding a goType(elem) value -/
+  | iface {t ts gs v vs} : v.isNilPtr = false → RT p t (goTypeOf t) v → Small p t v →
+      FieldsRT p ts gs vs → FieldsRT p (t :: ts) (.iface :: gs) (v :: vs)
 
 theorem FieldsRT_length {p : Nat} {ts : List CqlTy} {gs : List GoTy} {vs : List GoVal} (h : FieldsRT p ts gs vs) :
     vs.length = ts.length ∧ gs.length = ts.length := by
@@ -531,6 +535,7 @@ theorem FieldsRT_length {p : Nat} {ts : List CqlTy} {gs : List GoTy} {vs : List 
   | val _ _ _ _ _ ih => simp [ih.1, ih.2]
   | null _ _ ih => simp [ih.1, ih.2]
   | ptr _ _ _ _ ih => simp [ih.1, ih.2]
+  | iface _ _ _ _ ih => simp [ih.1, ih.2]
 
 theorem setSlot_val (t : CqlTy) (hb : isBase (goTypeOf t) = true) (item : Option Bytes) (v : GoVal) :
     C12Frame.setSlot t (goTypeOf t) item v = .ok v := by
@@ -633,6 +638,35 @@ theorem fields_back (p : Nat) : ∀ (ts : List CqlTy) (gs : List GoTy) (vs : Lis
     | err => rw [hv] at hm; simp at hm
     | crash => rw [hv] at hm; simp at hm
     | unmodelled => rw [hv] at hm; simp at hm
+  | @iface t ts gs v vs hnp hrt hsm _ ih =>
+    intro body rest hm
+    rw [marshalTupleFields] at hm
+    simp only [hnp, Bool.false_eq_true, if_false] at hm
+    cases hv : marshal p t v with
+    | ok item =>
+      rw [hv] at hm; simp only at hm
+      cases hr : marshalTupleFields p ts vs with
+      | ok orest =>
+        cases orest with
+        | none => rw [hr] at hm; simp at hm
+        | some rest' =>
+          rw [hr] at hm; simp at hm; subst hm
+          have hrd := C12Frame.readBytesM_appendBytes item (rest' ++ rest)
+            (by intro b hb'; subst hb'; exact hsm b hv)
+          have hu := hrt item hv
+          rw [C12Frame.unmarshalTupleSet_cons]
+          simp only [List.append_assoc, C12Frame.appendBytes_length_ge, Bool.not_false, if_true, hrd]
+          have hf : C12Frame.setField p t .iface item = .ok v := by
+            unfold C12Frame.setField
+            rw [unmarshal_eta, hu]
+            rfl
+          simp only [hf, ih rest' rest hr]
+      | err => rw [hr] at hm; simp at hm
+      | crash => rw [hr] at hm; simp at hm
+      | unmodelled => rw [hr] at hm; simp at hm
+    | err => rw [hv] at hm; simp at hm
+    | crash => rw [hv] at hm; simp at hm
+    | unmodelled => rw [hv] at hm; simp at hm
 
 theorem marshalTupleFields_not_null (p : Nat) : ∀ (ts : List CqlTy) (vs : List GoVal), marshalTupleFields p ts vs ≠ .ok none
   | [], _ => by simp [marshalTupleFields]
@@ -670,6 +704,191 @@ theorem rt_tuple_struct (p : Nat) (ts : List CqlTy) (gs : List GoTy) (vs : List 
       simp only [List.append_nil] at this
       simp only [dataBytes, Option.getD, this]
 
+/-! ## tuples bound to / decoded into a slice, an array, a []interface{} -/
+
+/-- the common part: what unmarshalTuple's loop gives for the bytes marshalTuple's loop wrote -/
+theorem tuple_set_back (p : Nat) (ts : List CqlTy) (gs : List GoTy) (vs : List GoVal) (h : FieldsRT p ts gs vs)
+    (ob : Option Bytes) (hm : wrapTuple ts (marshalTupleFields p ts vs) = .ok ob) :
+    unmarshalTupleSet p ts gs (dataBytes ob) = .ok vs [] := by
+  simp only [wrapTuple] at hm
+  by_cases hts : ts = []
+  · subst hts
+    cases h
+    simp at hm
+    subst hm
+    simp [dataBytes, unmarshalTupleSet]
+  · simp only [hts, if_false] at hm
+    cases ob with
+    | none => exact absurd hm (marshalTupleFields_not_null p ts vs)
+    | some body =>
+      have := fields_back p ts gs vs h body [] hm
+      simpa [dataBytes] using this
+
+/-- tuple<T, …, T'> ↔ []G: every element type has goType G (or G = *goType …, uniformly) -/
+theorem rt_tuple_slice (p : Nat) (ts : List CqlTy) (g : GoTy) (vs : List GoVal)
+    (h : FieldsRT p ts (List.replicate ts.length g) vs) (hg : (g == GoTy.iface) = false) :
+    RT p (.tuple ts) (.slice g) (.slice false vs) := by
+  intro ob hm
+  obtain ⟨hl1, _⟩ := FieldsRT_length h
+  simp only [marshal, hl1, ne_eq, not_true_eq_false, if_false] at hm
+  rw [unmarshal_base _ _ _ rfl]
+  simp only [unmarshalBase, tuple_set_back p ts _ vs h ob hm, hg, Bool.false_eq_true, if_false]
+
+/-- tuple ↔ [n]G -/
+theorem rt_tuple_array (p : Nat) (ts : List CqlTy) (g : GoTy) (vs : List GoVal)
+    (h : FieldsRT p ts (List.replicate ts.length g) vs) :
+    RT p (.tuple ts) (.array ts.length g) (.array vs) := by
+  intro ob hm
+  obtain ⟨hl1, _⟩ := FieldsRT_length h
+  simp only [marshal, hl1, ne_eq, not_true_eq_false, if_false] at hm
+  rw [unmarshal_base _ _ _ rfl]
+  simp only [unmarshalBase, ne_eq, not_true_eq_false, if_false, tuple_set_back p ts _ vs h ob hm]
+
+theorem ifaces_eq_fields (p : Nat) : ∀ (ts : List CqlTy) (vs : List GoVal),
+    (∀ v, v ∈ vs → v.isNil = false ∧ v.isNilPtr = false) → marshalTupleIfaces p ts vs = marshalTupleFields p ts vs
+  | [], _, _ => by simp [marshalTupleIfaces, marshalTupleFields]
+  | _ :: _, [], _ => by simp [marshalTupleIfaces, marshalTupleFields]
+  | t :: ts, v :: vs, h => by
+    have hv := h v List.mem_cons_self
+    have ih := ifaces_eq_fields p ts vs (fun w hw => h w (List.mem_cons_of_mem _ hw))
+    rw [marshalTupleIfaces, marshalTupleFields, ih]
+    simp [hv.1, hv.2]
+
+/-- tuple ↔ []interface{} holding goType(elem) values (no nil element: a null would come back as a zero value) -/
+theorem rt_tuple_ifaces (p : Nat) (ts : List CqlTy) (vs : List GoVal)
+    (h : FieldsRT p ts (List.replicate ts.length .iface) vs) (hn : ∀ v, v ∈ vs → v.isNil = false ∧ v.isNilPtr = false) :
+    RT p (.tuple ts) (.slice .iface) (.ifaces vs) := by
+  intro ob hm
+  obtain ⟨hl1, _⟩ := FieldsRT_length h
+  simp only [marshal, hl1, ne_eq, not_true_eq_false, if_false, ifaces_eq_fields p ts vs hn] at hm
+  rw [unmarshal_base _ _ _ rfl]
+  have hi : (GoTy.iface == GoTy.iface) = true := rfl
+  simp only [unmarshalBase, tuple_set_back p ts _ vs h ob hm, hi, if_true]
+
+/-! ## UDT ↔ map[string]interface{} -/
+
+/-- one UDT field with the value the map holds for it -/
+structure UField where
+  name : String
+  t : CqlTy
+  v : GoVal
+
+theorem enc1_of_mem (p : Nat) : ∀ (fl : List UField) (k : Nat) (f : UField), (fl.map (·.name)).Nodup → f ∈ fl →
+    ∃ i, lookupIdx f.name (fl.map (·.name)) k = some (k + i) ∧ (fl.map (·.t))[i]? = some f.t
+  | [], _, _, _, h => by cases h
+  | g :: r, k, f, hnd, hm => by
+    simp only [List.map_cons, List.nodup_cons] at hnd
+    rcases List.mem_cons.mp hm with rfl | hm
+    · exact ⟨0, by simp [lookupIdx], by simp⟩
+    · have hne : ¬ g.name = f.name := by
+        intro he
+        exact hnd.1 (by rw [he]; exact List.mem_map_of_mem hm)
+      obtain ⟨i, h1, h2⟩ := enc1_of_mem p r (k+1) f hnd.2 hm
+      refine ⟨i + 1, ?_, by simpa using h2⟩
+      simp only [List.map_cons, lookupIdx, if_neg hne, h1]
+      congr 1; omega
+
+theorem seqItems_not_none : ∀ rs : List MRes, seqItems (fun item => some (appendBytes item)) rs ≠ .ok none
+  | [] => by simp [seqItems]
+  | r :: rs => by
+    intro h
+    have ih := seqItems_not_none rs
+    simp only [seqItems] at h
+    cases r with
+    | ok item =>
+      simp only at h
+      cases hr : seqItems (fun item => some (appendBytes item)) rs with
+      | ok o => cases o with
+        | none => exact ih hr
+        | some x => rw [hr] at h; simp at h
+      | err => rw [hr] at h; simp at h
+      | crash => rw [hr] at h; simp at h
+      | unmodelled => rw [hr] at h; simp at h
+    | err => simp at h
+    | crash => simp at h
+    | unmodelled => simp at h
+
+/-- marshalUDT on a map[string]interface{} holding exactly the UDT's fields: the fields' encodings in order -/
+theorem marshal_udtmap (p : Nat) (fl : List UField) (hnd : (fl.map (·.name)).Nodup) (hne : fl ≠ []) :
+    marshal p (.udt (fl.map (·.name)) (fl.map (·.t))) (.udtmap false (fl.map (·.name)) (fl.map (·.v))) =
+      seqItems (fun item => some (appendBytes item)) (fl.map (fun f => marshal p f.t f.v)) := by
+  have hz : fl.map (·.name) = (fl.map (fun f => (f.name, f.v))).map (·.1) := by simp [List.map_map, Function.comp_def]
+  have hv : fl.map (·.v) = (fl.map (fun f => (f.name, f.v))).map (·.2) := by simp [List.map_map, Function.comp_def]
+  have hnames : fl.map (·.name) ≠ [] := by simpa using hne
+  simp only [marshal]
+  rw [C02Hist.marshalNamed_eq]
+  conv => lhs; arg 2; rw [hv]; arg 2; rw [hz]
+  conv => lhs; arg 3; rw [hz]
+  rw [C02Hist.udtAssemble_pick, if_neg hnames]
+  congr 1
+  rw [List.map_map]
+  apply List.map_congr_left
+  intro f hf
+  simp only [Function.comp]
+  have hmem : (f.name, f.v) ∈ fl.map (fun f => (f.name, f.v)) := List.mem_map_of_mem hf
+  rw [C02Hist.pick_of_mem _ f.name f.v _ (by rw [← hz]; exact hnd) hmem]
+  obtain ⟨i, h1, h2⟩ := enc1_of_mem p fl 0 f hnd hf
+  simp only [C02Hist.enc1, h1, Nat.zero_add, h2]
+
+/-- marshalUDT's field loop against unmarshalUDT's loop into map[string]interface{} -/
+theorem udtmap_back (p : Nat) : ∀ (fl : List UField) (body rest : Bytes),
+    (∀ f, f ∈ fl → RT p f.t (goTypeOf f.t) f.v ∧ Small p f.t f.v) →
+    seqItems (fun item => some (appendBytes item)) (fl.map (fun f => marshal p f.t f.v)) = .ok (some body) →
+    unmarshalUdtMap p (fl.map (·.name)) (fl.map (·.t)) (body ++ rest) = .ok (fl.map (·.v)) rest
+  | [], body, rest, _, h => by
+    simp [seqItems] at h
+    subst h
+    simp [unmarshalUdtMap]
+  | f :: fl, body, rest, hrt, h => by
+    simp only [List.map_cons, seqItems] at h
+    cases hm : marshal p f.t f.v with
+    | ok item =>
+      rw [hm] at h
+      simp only at h
+      cases hr : seqItems (fun item => some (appendBytes item)) (fl.map (fun f => marshal p f.t f.v)) with
+      | ok orest =>
+        rw [hr] at h
+        have hf := hrt f List.mem_cons_self
+        have hu := hf.1 item hm
+        have hsm : ∀ b, item = some b → b.length < 2^31 := by intro b hb; subst hb; exact hf.2 b hm
+        cases orest with
+        | none => exact absurd hr (seqItems_not_none _)
+        | some rest' =>
+          simp at h
+          subst h
+          have ih := udtmap_back p fl rest' rest (fun g hg => hrt g (List.mem_cons_of_mem _ hg)) hr
+          have hrd := C12Frame.readBytesM_appendBytes item (rest' ++ rest) hsm
+          have hsh := C12Frame.appendBytes_length_ge item (rest' ++ rest)
+          have hne : appendBytes item ++ (rest' ++ rest) ≠ [] := by
+            intro h0
+            rw [h0] at hsh
+            simp [shorter] at hsh
+          simp only [List.map_cons, unmarshalUdtMap, List.append_assoc, if_neg hne, hsh, Bool.false_eq_true, if_false, hrd]
+          rw [unmarshal_eta, hu]
+          simp only [ih]
+      | err => rw [hr] at h; simp at h
+      | crash => rw [hr] at h; simp at h
+      | unmodelled => rw [hr] at h; simp at h
+    | err => rw [hm] at h; simp at h
+    | crash => rw [hm] at h; simp at h
+    | unmodelled => rw [hm] at h; simp at h
+
+/-- UDT ↔ map[string]interface{} holding, for every field of the UDT (in any number, distinct names), a goType(field)
+    value whose round trip holds: the map comes back with the same entries -/
+theorem rt_udtmap (p : Nat) (fl : List UField) (hnd : (fl.map (·.name)).Nodup) (hne : fl ≠ [])
+    (hrt : ∀ f, f ∈ fl → RT p f.t (goTypeOf f.t) f.v ∧ Small p f.t f.v) :
+    RT p (.udt (fl.map (·.name)) (fl.map (·.t))) .udtmap (.udtmap false (fl.map (·.name)) (fl.map (·.v))) := by
+  intro ob hm
+  rw [marshal_udtmap p fl hnd hne] at hm
+  rw [unmarshal_base _ _ _ rfl]
+  cases ob with
+  | none => exact absurd hm (seqItems_not_none _)
+  | some body =>
+    have := udtmap_back p fl body [] hrt hm
+    simp only [List.append_nil] at this
+    simp only [unmarshalBase, this]
+    rw [List.take_of_length_le (by simp)]
+
 theorem nullOK_scalar (p : Nat) (t : CqlTy) (ht : CqlTy.isScalar t = true) : NullOK p t := by
   unfold NullOK
   cases t <;> simp [CqlTy.isScalar] at ht <;>
@@ -687,7 +906,7 @@ theorem nullOK_coll (p : Nat) (t : CqlTy) (ht : (∃ e, isListLike t e) ∨ (∃
 
 /-! ## tuple fields as data (for the inductive `Clean` of Proofs/C02.lean) -/
 
-inductive FKind | val | null | ptr
+inductive FKind | val | null | ptr | iface
 
 /-- one struct field bound to a tuple element of type `t`: `val` = a field of type goType(t) holding `v`,
     `null` = a nil field of type *goType(t), `ptr` = a field of type *goType(t) pointing to `v` -/
@@ -696,8 +915,8 @@ structure TField where
   kind : FKind
   v : GoVal
 
-def TField.ty (f : TField) : GoTy := match f.kind with | .val => goTypeOf f.t | _ => .ptr (goTypeOf f.t)
-def TField.val (f : TField) : GoVal := match f.kind with | .val => f.v | .null => .nilptr | .ptr => .ptr f.v
+def TField.ty (f : TField) : GoTy := match f.kind with | .val => goTypeOf f.t | .iface => .iface | _ => .ptr (goTypeOf f.t)
+def TField.val (f : TField) : GoVal := match f.kind with | .val => f.v | .null => .nilptr | .ptr => .ptr f.v | .iface => f.v
 
 /-- the side conditions of a field that do not mention the round trip of its value -/
 def TField.side (p : Nat) (f : TField) : Prop :=
@@ -705,6 +924,7 @@ def TField.side (p : Nat) (f : TField) : Prop :=
   | .val => isBase (goTypeOf f.t) = true ∧ f.v.isNilPtr = false ∧ Small p f.t f.v
   | .null => NullOK p f.t
   | .ptr => NonNull p f.t f.v ∧ Small p f.t f.v
+  | .iface => f.v.isNilPtr = false ∧ f.v.isNil = false ∧ Small p f.t f.v
 
 theorem fieldsRT_of (p : Nat) : ∀ fs : List TField,
     (∀ f, f ∈ fs → f.kind ≠ .null → RT p f.t (goTypeOf f.t) f.v) → (∀ f, f ∈ fs → f.side p) →
@@ -725,5 +945,16 @@ theorem fieldsRT_of (p : Nat) : ∀ fs : List TField,
     | ptr =>
       simp only [TField.side] at h2
       exact .ptr (h1 (by intro h; cases h)) h2.1 h2.2 ih
+    | iface =>
+      simp only [TField.side] at h2
+      exact .iface h2.1 (h1 (by intro h; cases h)) h2.2.2 ih
+
+theorem map_ty_replicate (fs : List TField) (g : GoTy) (h : ∀ f, f ∈ fs → f.ty = g) :
+    fs.map (·.ty) = List.replicate (fs.map (·.t)).length g := by
+  induction fs with
+  | nil => rfl
+  | cons f fs ih =>
+    simp only [List.map_cons, List.length_cons, List.replicate_succ]
+    rw [h f List.mem_cons_self, ih (fun f' hf' => h f' (List.mem_cons_of_mem _ hf'))]
 
 end C02Nested
